@@ -24,8 +24,10 @@ TRUSTED = ["SVD contract for the covariance decomposition", "inv contract (A B =
 ASSUMPTIONS = ["every singular value of the covariance exceeds 1e-12 (full column rank)", "a syntactically Hermitian matrix handed to the SVD is positive semi-definite (here always a Gram matrix X^H X / n), so its left and right singular vectors coincide"]
 
 
-def _centred(B, n, p, cplx=False, illcond=False):
+def _centred(B, n, p, cplx=False, illcond=False, scale=None):
     X = B.array((n, p), "x", cplx)
+    if scale:
+        X = X * float(scale)  # same symbolic generality; the WITNESS has the amplitude of a field in small units
     if illcond:
         # same symbolic generality (image under an invertible concrete map), but the WITNESS is ill-conditioned
         # (cond ~ 1e5, inside the property's range up to 1e6): columns nearly collinear
@@ -42,8 +44,8 @@ def _H(A):
     return np.conjugate(A).T
 
 
-def h_whitener(B, n=4, p=2, alpha=0.5, cplx=False, q=None, illcond=False):
-    X = _centred(B, n, p, cplx, illcond)
+def h_whitener(B, n=4, p=2, alpha=0.5, cplx=False, q=None, illcond=False, scale=None):
+    X = _centred(B, n, p, cplx, illcond, scale)
     W = Whitener(alpha=alpha)
     B.covers("Whitener.fit", "_fractional_matrix_power")
     XT = W.fit_transform(X)
@@ -149,6 +151,8 @@ def configs(tier):
         add("h_whitener", f"Whitener|alpha={alpha}|n4p2", n=4, p=2, alpha=alpha)
     add("h_whitener", "Whitener|alpha=0|complex|n4p2", n=4, p=2, alpha=0, cplx=True)
     add("h_whitener", "Whitener|alpha=0|ill-conditioned witness (cond 1e5)|n4p2", n=4, p=2, alpha=0, illcond=True)
+    add("h_whitener", "Whitener|alpha=0|witness amplitude 2e-5|n4p2", n=4, p=2, alpha=0, scale=2e-5)
+    add("h_whitener", "Whitener|alpha=0|witness amplitude 1e4|n4p2", n=4, p=2, alpha=0, scale=1e4)
     add("h_whitener_refit", "Whitener|alpha=0|second fit on the same object", alpha=0.0)
     add("h_pca", "PCA|all|n4p3", n=4, p=3, k="all")
     add("h_pca", "PCA|k=2|n4p3", n=4, p=3, k=2)
